@@ -23,15 +23,16 @@ TRUSTED = [
     "priorities are exact rationals in the model; the harness only uses values exactly representable as floats",
 ]
 ASSUMPTIONS = [
-    "programs never make a task wait for a lock while it holds one (inheritance chains have depth one), so "
-    "PriorityLock.propagate_priority's waiter re-keying (C12) is never exercised",
+    "nested PriorityLock sections take the locks in increasing index order (no deadlock; the wait-for graph is "
+    "acyclic), chains of up to three locks",
     "no timers, I/O or cancellation; a handle is queued at most once at a time",
     "exact-order clause: priority_boost_factor = 0; equal-priority clause: default factor with "
     "asynkit.experimental.priority.random stubbed to a fixed cycle of draws",
 ]
 RULE = ("case = multi-task program as in C08 with per-task priorities from {-10,-1,0,0.5,1,10} given as ints, floats "
         "or Priority members, PriorityTasks, plain Tasks and callbacks mixed, tasks changing priority_value, "
-        "PriorityLock sections, create_task_descend under lock contention, long histories (maintenance); each program "
+        "PriorityLock sections (nested, fixed lock order), create_task_descend under lock contention, positional entries "
+        "re-evaluated through inheritance chains of 2-3 locks, long histories (maintenance); each program "
         "is run (a) on the priority loop with boosting off under the lock-step reference of the stated order, (b) with "
         "all priorities zeroed on the priority loop (default boosting) and on SchedulingSelectorEventLoop; "
         "non-trivial = the run itself had a positional entry ahead of a more urgent one, a tie resolved by arrival, "
@@ -293,9 +294,9 @@ def run(ctx):
     rng = ctx.rng
     explore(ctx, corpus_cases(), label="corpus: ")
     if ctx.thorough():
-        n_rand, n_cont, n_long = 24000, 6000, 2400
+        n_rand, n_cont, n_long, n_chain = 24000, 6000, 2400, 6000
     else:
-        n_rand, n_cont, n_long = 2400, 800, 300
+        n_rand, n_cont, n_long, n_chain = 2400, 800, 300, 700
     progs = [S.gen_program(rng, "c10") for _ in range(n_rand)]
     for p in progs[:2]:
         ctx.sample(p)
@@ -304,6 +305,10 @@ def run(ctx):
     progs = [S.gen_contention(rng) for _ in range(n_cont)]
     ctx.sample(progs[0])
     explore(ctx, progs, label="contention: ")
+    progs = [S.gen_chain(rng) for _ in range(n_chain)]
+    ctx.sample(progs[0])
+    for i in range(0, len(progs), 1500):
+        explore(ctx, progs[i:i + 1500], label="chain: ")
     progs = [S.gen_program(rng, "c10", n_tasks=rng.randint(3, 6), long=True) for _ in range(n_long)]
     for i in range(0, len(progs), 400):
         explore(ctx, progs[i:i + 400], label="long: ")
